@@ -441,6 +441,63 @@ fn matrix_c06(args: &Args, agg: &mut Agg, prop: &str) -> (u64, u64) {
             }
         }
     }
+    // leaked `RefMut` (safe: `mem::forget(cell.borrow_mut(mc))`): the cell still owns its children and
+    // they stay reachable; tracing it panics ("already mutably borrowed", a documented consequence),
+    // so no cycle can complete while it is reachable - but nothing reachable may be lost either
+    if shard == 0 && !args.flag("only") || args.m.get("only").map(|o| o.starts_with("leaked-borrow")).unwrap_or(false) {
+        for variant in 0..4u32 {
+            let name = format!("leaked-borrow|v{}", variant);
+            if let Some(only) = args.m.get("only") {
+                if only != &name {
+                    continue;
+                }
+            }
+            // (fault position 900 is never reached: it only tells the executor that a panic out of
+            // this call may be the expected borrow panic)
+            let col = |op: COp| Op::Collect { a: 0, op, fault: 900 };
+            let mut ops = vec![
+                Op::New {
+                    a: 0,
+                    via: NewKind::New,
+                    body: vec![alloc(2, Kind::Leaf, 0, vec![]), alloc(3, Kind::Node, 0, vec![]), alloc(1, Kind::RCell, 0, vec![Some(2), Some(3)]), sets(Ref::Root, 0, Some(1))],
+                },
+                Op::SetPacing { a: 0, p: PacingSpec::STEPPER },
+                Op::Audit { a: 0 },
+            ];
+            if variant % 2 == 1 {
+                ops.push(step());
+                ops.push(step());
+            }
+            ops.push(cb(vec![MOp::LeakBorrow { o: 1 }]));
+            match variant / 2 {
+                0 => {
+                    for _ in 0..3 {
+                        ops.push(col(COp::FinishCycle));
+                    }
+                }
+                _ => {
+                    for _ in 0..8 {
+                        ops.push(col(COp::Step));
+                    }
+                    ops.push(col(COp::FinishMarking));
+                    ops.push(col(COp::FinishCycle));
+                    ops.push(col(COp::CollectDebt));
+                }
+            }
+            ops.push(cb(vec![MOp::Validate]));
+            ops.push(Op::DropArena { a: 0 });
+            let r = run_scenario(&ops);
+            cells += 1;
+            if args.flag("trace") {
+                for o in r.ops.iter() {
+                    println!("OP {}", o);
+                }
+            }
+            let replay = J::obj().set("mode", "scen").set("table", "c06").set("name", name.as_str()).set("path_index", 0u64);
+            let nt = r.stats.get("leaked_borrows") > 0;
+            agg.add(prop, &r, replay, nt);
+        }
+    }
     (cells, skipped)
 }
 
